@@ -1462,9 +1462,15 @@ func runRegionCase(c RCase) (info vkit.Info, err error) {
 			why = fmt.Sprintf(" (first LoadRegionsOnce failed on the injected %s fault: %v; the retry returned nil)", c.Load.Fault, firstErr)
 		}
 		// the call(s) that returned nil delivered every region stored at that time exactly once
+		// (a region that the same pass removed from storage before its turn need not be delivered)
+		stillStored := make(map[uint64]bool, len(post))
+		for _, r := range post {
+			stillStored[r.GetId()] = true
+		}
 		for _, r := range mid {
-			if n := delivered[r.GetId()]; n != 1 {
-				return info, fmt.Errorf("prune%s: region %d was stored but was delivered %d times by the LoadRegionsOnce call(s) that returned nil", why, r.GetId(), n)
+			n := delivered[r.GetId()]
+			if n > 1 || (n == 0 && stillStored[r.GetId()]) {
+				return info, fmt.Errorf("prune%s: region %d was stored (and %v afterwards) but was delivered %d times by the LoadRegionsOnce call(s) that returned nil", why, r.GetId(), map[bool]string{true: "still is", false: "is not"}[stillStored[r.GetId()]], n)
 			}
 		}
 		knownRetry := fired && firstErr != nil && vkit.Known(keyRetry)
